@@ -228,12 +228,15 @@ def _requester(el):
     return el.compute
 
 
-def ref_blocks(kind, values, n, reset, partial, via):
+def ref_blocks(kind, values, n, reset, partial, via, reset_every=None):
     """Per-block results of a fresh element of *kind* on consecutive blocks of *n* of *values*.
 
     partial: also the final block of fewer than n (but at least one) values (yield_on_remainder).
     via: "run" - the element's run method is given iter(block); "fill" - fill each value, then
     request (or compute). The element is reset after each block when *reset*.
+    reset_every: j - the element is also reset after every j-th block, whatever *reset* says (an
+    outer adapter with reset=True whose block is j blocks of this one resets the element between
+    ITS blocks).
     """
     el = make_element(kind)
     out = []
@@ -248,7 +251,7 @@ def ref_blocks(kind, values, n, reset, partial, via):
                 el.fill(value)
             results = list(_requester(el)())
         out.append(results)
-        if reset:
+        if reset or (reset_every and len(out) % reset_every == 0):
             el.reset()
     return out
 
